@@ -89,30 +89,69 @@ theorem C17_set_property_order (d : Defn) (p : Name) (os : List Name) (d' : Defn
   rw [← h.1]
   exact C13_append_order d.objs os
 
-/-- site `conflicting_pairs` (the pairs listed in the `ValueError` message): enumerated in the table
-order of the left operand (objects, then properties); the symmetric-difference *set* is only used for
-membership -/
+/-- site `conflicting_pairs` (the pairs listed in the `ValueError` message of `union` /
+`intersection` / `*_update`): `left._objects & right._objects` iterates the RIGHT operand
+(`collections.abc.Set.__and__`), so the list is the table order of the right operand (objects, then
+properties), filtered by "name known on the left and the two cells differ"; the symmetric-difference
+*set* is only used for membership.  An equation, not just a sublist. -/
 theorem C17_conflicts_order (l r : Defn) :
-    (conflicts l r).Sublist (l.objs.flatMap fun o => l.props.map fun p => (o, p)) := by
-  unfold conflicts
-  simp only
-  refine ((List.Sublist.flatMap_right _ (g := fun o => l.props.map fun p => (o, p)) ?_).trans
-    (List.Sublist.flatMap List.filter_sublist _))
-  intro o _
-  have h1 : ((l.props.filter r.props.contains).filterMap fun p =>
-      if (l.pairs.contains (o, p) != r.pairs.contains (o, p)) = true then some (o, p) else none).Sublist
-      ((l.props.filter r.props.contains).map fun p => (o, p)) := by
-    induction (l.props.filter r.props.contains) with
-    | nil => simp
-    | cons a t ih =>
-      rw [List.filterMap_cons, List.map_cons]
-      split
-      · rename_i hnone
-        exact ih.trans (List.sublist_cons_self _ _)
-      · rename_i b hsome
-        split at hsome
-        · simp at hsome; subst hsome; exact ih.cons₂ _
-        · simp at hsome
-  exact h1.trans (List.Sublist.map _ List.filter_sublist)
+    l.conflictList r = (r.objs.flatMap fun o => r.props.map fun p => (o, p)).filter fun q =>
+      l.objs.contains q.1 && (l.props.contains q.2 && (l.pairs.contains q != r.pairs.contains q)) :=
+  conflicts_eq_filter l r
+
+/-- in particular it is a sublist of the right operand's product order -/
+theorem C17_conflicts_sublist (l r : Defn) :
+    (conflicts l r).Sublist (r.objs.flatMap fun o => r.props.map fun p => (o, p)) := by
+  rw [conflicts_eq_filter]; exact List.filter_sublist
+
+/-- the replay of the review: `a.union(b)` lists the conflicts in `b`'s order, `b.union(a)` in `a`'s -/
+example :
+    let a : Defn := ⟨["o1", "o2"], ["p1", "p2"], [("o1", "p1"), ("o2", "p2")]⟩
+    let b : Defn := ⟨["o2", "o1"], ["p2", "p1"], [("o2", "p1"), ("o1", "p2"), ("o1", "p1")]⟩
+    a.conflictList b = [("o2", "p2"), ("o2", "p1"), ("o1", "p2")] ∧
+    b.conflictList a = [("o1", "p2"), ("o2", "p1"), ("o2", "p2")] := by decide
+
+/-- the message is raised exactly when the list is non-empty and conflicts are not ignored -/
+theorem C17_conflicts_raised (d e : Defn) (ig : Bool) :
+    (∃ err, d.step (.unionUpdate e ig) = .error err) ↔ ig = false ∧ d.conflictList e ≠ [] := by
+  simp only [Defn.step, Defn.conflictList]
+  cases ig <;> cases h : conflicts d e <;> simp
+
+/-- site `Definition._pairs` (a Python `set` of pairs; several methods iterate it): the model keeps it
+as a list, and nothing observable depends on the enumeration — the table, cell reads, equality, the
+conflict list and the result of every mutator call depend only on membership (`C13_pairs_as_set`;
+whole histories: `C13_pairs_as_set_history`, deriving methods: `C13_pairs_as_set_derived`) -/
+theorem C17_pairs_enumeration (d d' : Defn) (ho : d.objs = d'.objs) (hp : d.props = d'.props)
+    (hm : ∀ x, x ∈ d.pairs ↔ x ∈ d'.pairs) (ops ops' : List Op)
+    (hops : List.Forall₂ Op.SameSet ops ops') :
+    d.bools = d'.bools ∧ (∀ e, d.conflictList e = d'.conflictList e) ∧
+    (d.runHistory ops).objs = (d'.runHistory ops').objs ∧
+    (d.runHistory ops).props = (d'.runHistory ops').props ∧
+    (d.runHistory ops).bools = (d'.runHistory ops').bools ∧
+    (d.runTrace ops).2 = (d'.runTrace ops').2 := by
+  obtain ⟨h1, _, _, _, h5, _⟩ := C13_pairs_as_set d d' ho hp hm
+  obtain ⟨g1, g2, _, g4, g5⟩ := C13_pairs_as_set_history d d' ops ops' ho hp hm hops
+  exact ⟨h1, fun e => (h5 e).1, g1, g2, g4, g5⟩
+
+example : exD.objs = exD'.objs ∧ exD.props = exD'.props ∧ (∀ x, x ∈ exD.pairs ↔ x ∈ exD'.pairs) ∧
+    List.Forall₂ Op.SameSet [Op.unionUpdate exD false] [Op.unionUpdate exD' false] :=
+  ⟨rfl, rfl, exD_sameSet.2.2, .cons (.union false exD_sameSet) .nil⟩
 
 end FCA
+
+open FCA in
+#print axioms C17_pairs_enumeration
+open FCA in
+#print axioms C17_frommembers_order
+open FCA in
+#print axioms C17_maximal_members
+open FCA in
+#print axioms C17_traversal_seed_order
+open FCA in
+#print axioms C17_set_object_order
+open FCA in
+#print axioms C17_conflicts_order
+open FCA in
+#print axioms C17_conflicts_sublist
+open FCA in
+#print axioms C17_conflicts_raised
